@@ -227,6 +227,12 @@ def _lat_values(rng, k, mode, polar_ok):
                 lat = np.unique(np.append(lat, rng.choice(pool)))
     if rng.random() < 0.3:
         lat = rng.permutation(lat)
+    if rng.random() < 0.12:
+        # an equatorial strip: every |lat| below pi/2 -- degrees that a units heuristic could take for radians
+        lat = np.unique(np.round(rng.uniform(-1.5, 1.5, k), 3))
+        while lat.size < k:
+            lat = np.unique(np.append(lat, np.round(rng.uniform(-1.5, 1.5), 3)))
+        lat = rng.permutation(lat)
     return np.asarray(lat, dtype=float)
 
 
